@@ -211,11 +211,12 @@ impl InputState {
         let s: String = self.input.iter().collect();
         if let Some(s) = s.strip_prefix("load ") {
             let file_comp = FilenameCompleter::new();
-            let pos = if self.input_index > 5 {
-                self.input_index - 5
-            } else {
-                0
-            };
+            // The completer wants a byte position, the cursor counts characters
+            let pos = s
+                .chars()
+                .take(self.input_index.saturating_sub(5))
+                .map(char::len_utf8)
+                .sum();
             let comps = file_comp.complete_path(s, pos);
             match comps {
                 Ok((_, comps)) => {
